@@ -310,10 +310,96 @@ func runManyMetrics(c *Ctx, gauges, cached bool, n int) {
 	c.Cov.Eval(line, true)
 }
 
+// runRetiredHandle: a sub-scope is closed and obtained again BEFORE a pass has collected the closed object; the holder
+// of the closed object then first-uses NEW metric names on it ("closing a scope never affects any other scope": what
+// happens through the retired object must not disturb the successor); what is recorded on the successor is delivered.
+func runRetiredHandle(c *Ctx, gauges, cached bool, lateNames int) {
+	w := newWorld(cached, 0, 1, false)
+	tags := map[string]string{"r": "1"}
+	old := w.root.Tagged(tags)
+	line := fmt.Sprintf("cached=%v %s: A = root.Tagged(r:1) with two metrics; A.Close(); B = root.Tagged(r:1) (no pass in between) with two metrics; %d NEW names first used through A; the metrics of B used; pass; pass; root Close",
+		cached, map[bool]string{false: "counters", true: "gauges"}[gauges], lateNames)
+	if gauges {
+		old.Gauge("a0").Update(1)
+		old.Gauge("a1").Update(2)
+	} else {
+		old.Counter("a0").Inc(1)
+		old.Counter("a1").Inc(2)
+	}
+	old.(io.Closer).Close()
+	succ := w.root.Tagged(tags)
+	var bc []tally.Counter
+	var bg []tally.Gauge
+	for i := 0; i < 2; i++ {
+		if gauges {
+			bg = append(bg, succ.Gauge(fmt.Sprintf("b%d", i)))
+		} else {
+			bc = append(bc, succ.Counter(fmt.Sprintf("b%d", i)))
+		}
+	}
+	for i := 0; i < lateNames; i++ {
+		p, v := catch(func() {
+			if gauges {
+				old.Gauge(fmt.Sprintf("late%d", i)).Update(99)
+			} else {
+				old.Counter(fmt.Sprintf("late%d", i)).Inc(99)
+			}
+		})
+		if p {
+			c.Cov.Fail(Failure{Kind: "crash", Clause: "no-panic", Signature: "scopeseq-retired-handle-panics", Line: line, Reply: fmt.Sprint(v)})
+			return
+		}
+	}
+	for i := 0; i < 2; i++ {
+		if gauges {
+			bg[i].Update(float64(i) + 10.5)
+		} else {
+			bc[i].Inc(int64(i) + 10)
+		}
+	}
+	tally.VerifReportOnce(w.root)
+	tally.VerifReportOnce(w.root)
+	w.closer.Close()
+	if gauges {
+		last := map[string]string{}
+		for _, d := range w.gaugeDeliveries() {
+			last[d[0]] = d[1]
+		}
+		for i := 0; i < 2; i++ {
+			want := float64(i) + 10.5
+			found := ""
+			for k, v := range last {
+				if strings.HasPrefix(k, fmt.Sprintf("b%d|", i)) {
+					found = v
+				}
+			}
+			if found != f64hex(want) {
+				c.Cov.Fail(Failure{Kind: "violated", Clause: "latest-value-delivered", Signature: "scopeseq-successor-disturbed-by-retired-handle", Line: line,
+					Reply: fmt.Sprintf("gauge b%d of the successor: last update %v (%s), most recent delivery %q (all: %v)", i, want, f64hex(want), found, last)})
+				break
+			}
+		}
+	} else {
+		got, _ := w.delivered()
+		for i := 0; i < 2; i++ {
+			if g := got[fmt.Sprintf("b%d", i)]; g != int64(i)+10 {
+				c.Cov.Fail(Failure{Kind: "violated", Clause: "recorded-on-an-open-scope-delivered-exactly-once", Signature: "scopeseq-successor-disturbed-by-retired-handle", Line: line,
+					Reply: fmt.Sprintf("counter b%d of the successor: %d added, %d delivered (all: %v)", i, int64(i)+10, g, got)})
+				break
+			}
+		}
+	}
+	c.Cov.Hit(fmt.Sprintf("retired-handle.%d", lateNames))
+	c.Cov.Eval(line, true)
+}
+
 func suiteScopeSeq(c *Ctx, gauges bool) {
 	for _, cached := range []bool{false, true} {
 		for _, n := range []int{15, 16, 17, 33, 65, 200} {
 			runManyMetrics(c, gauges, cached, n)
+		}
+		for _, late := range []int{1, 2, 3} {
+			runRetiredHandle(c, gauges, cached, late)
 		}
 	}
 	c.Cov.Rule = "EXHAUSTIVE over sequential histories: all well-formed sequences of up to L operations (quick L=6, thorough L=7) over {increment a counter (gauge mode: update a gauge with a fresh value; timer mode: record on a timer) through the root / S / T handle, Close S or T, obtain S or T again through the current handle of its parent, report pass, root Close} on root, S = root.SubScope(s), T = S.Tagged(k:v); plain and cached closable reporters, 1 and 2 shards; then two passes and the root's Close; oracles: conservation per name over increments made through open scopes, inert scopes (from a closed parent / after the root's Close) deliver nothing, nothing reaches the reporter after the root's Close, a second Close returns nil; timer mode: one timer delivery per record through a handle that is not inert (also after the root's Close, as C10 says), none through an inert scope; gauge mode (C02, sequentially): every delivered value was passed to Update on that gauge through an open scope, never more deliveries than updates, the most recent delivery is the last update; nontrivial = an operation follows a Close; distinct by history"
